@@ -197,9 +197,12 @@ theorem step_addLocal (a : Agent) (now : Nat) (c : Cand) (hi : Inv a) (hc : a.cl
 theorem step_addRemote (a : Agent) (now : Nat) (c : Cand) (hi : Inv a) (hc : a.closed = false) :
     StepOK a (.addRemote now c) (step a (.addRemote now c)) := by
   have g := hi.good hc
+  by_cases ht : c.tt = 1
+  · have e0 : step a (.addRemote now c) = (a, []) := by simp [step, hc, ht]
+    rw [e0]; exact StepOK.of_quiet hi (QuietO.refl a)
   have e : step a (.addRemote now c) =
       (((a.addRemoteCandidate c).1.runForced now).1, (a.addRemoteCandidate c).2.1 ++ ((a.addRemoteCandidate c).1.runForced now).2) := by
-    simp only [step, hc, Bool.false_eq_true, if_false]
+    simp [step, hc, ht]
   rw [e]
   have h1 := addRemoteCandidate_eff a c g
   exact StepOK.of_sel_tick (x := ((a.addRemoteCandidate c).1, (a.addRemoteCandidate c).2.1)) hi hc h1
